@@ -1,16 +1,25 @@
 import ShVerif.Base.Hex
 /-
-  C10 — model of how the parser decides `ParseError.Incomplete` for a here-document body that
-  reaches the end of the input (syntax/parser.go doHeredocs + posErr, syntax/lexer.go
-  quotedHdocWord / the unquoted body path).  A body is a list of lines; the scanner compares each
-  line with the stop word.  `tok`, `litLen`, `openNodes` are the three pieces of parser state that
-  `posErr` reads: Incomplete := tok == _EOF && (openNodes > 0 || litLen > 0).
+  C10 — model of how the parser decides `ParseError.Incomplete` (syntax/parser.go posErr,
+  Parser.Incomplete) and of the one mechanism whose incompleteness is not a consequence of the
+  `openNodes` bracket alone: here-document bodies (doHeredocs, lexer.go quotedHdocWord /
+  advanceLitHdoc, and the `len(p.heredocs) > p.buriedHdocs` test in Parser.next).
+
+  Three layers, smallest first:
+   1. the decision itself:   Incomplete := tok == _EOF && (openNodes > 0 || len(litBs) > 0)
+   2. reading one body:      a body is a list of lines compared with the stop word
+   3. scheduling:            which newline token makes the parser read the pending bodies — the
+                             one that ends the `<<` line, unless it was lexed while the pending
+                             here-documents were "buried" by preNested (`[[ … ]]`, `let …`)
 -/
 namespace ShVerif.C10
+
+/-! ### 1. the decision -/
 
 inductive Tok | newl | eof | other
   deriving DecidableEq, Repr
 
+/-- the three pieces of parser state `posErr` reads -/
 structure PState where
   tok : Tok
   openNodes : Nat
@@ -19,6 +28,15 @@ structure PState where
 
 /-- `Parser.Incomplete()` -/
 def PState.incomplete (s : PState) : Bool := s.openNodes > 0 || s.litLen > 0
+
+/-- the `Incomplete` field `posErr` gives a new ParseError -/
+def PState.errIncomplete (s : PState) : Bool := s.tok == .eof && s.incomplete
+
+/-- `stmts` and `wordParts` bracket every statement / word part with `openNodes++ … openNodes--`;
+    the parser state inside `depth` such brackets, entered from a state with none open. -/
+def inBrackets (tok : Tok) (depth litLen : Nat) : PState := { tok := tok, openNodes := depth, litLen := litLen }
+
+/-! ### 2. reading one here-document body -/
 
 inductive Outcome
   | closed (body : List Bytes)        -- stop word found; body lines before it
@@ -30,31 +48,101 @@ def stripTabs : Bytes → Bytes
   | 9 :: r => stripTabs r
   | l => l
 
-/-- Quoted-delimiter scanner (quotedHdocWord): a literal is started before the loop, every byte
-    read is appended to it, and at EOF the function returns nil — since the fix, after setting
-    `tok` to EOF.  `fixed = false` reproduces the pinned behaviour (tok stays at the newline). -/
+/-- bytes the scanner has appended to `litBs` after reading these complete lines -/
+def litBytes (ls : List Bytes) : Nat := (ls.map (fun (l : Bytes) => l.length + 1)).sum
+
+/-- Quoted-delimiter scanner (quotedHdocWord): a literal is started before the loop (`newLit`),
+    every byte read is appended to it and it is never ended before the stop line; at EOF the
+    function returns nil — since the fix, after setting `tok` to EOF.  `fixed = false` reproduces
+    the pinned behaviour (tok stays what it was, a newline).  `s` is the state of the caller
+    (`openNodes` is not touched by this path). -/
 def scanQuoted (fixed : Bool) (tabs : Bool) (stop : Bytes) (s : PState) :
     List Bytes → List Bytes → Outcome
   | [], acc =>
-    -- runeEOF: the unterminated literal keeps litLen > 0 unless nothing was read at all
-    let s' := { s with tok := if fixed then .eof else s.tok,
-                        litLen := s.litLen + (acc.map (fun (l : Bytes) => l.length + 1)).sum + 1 }
-    .unclosedErr (s'.tok == .eof && s'.incomplete)
+    let s' := { s with tok := if fixed then .eof else s.tok, litLen := litBytes acc }
+    .unclosedErr s'.errIncomplete
   | line :: rest, acc =>
     let l := if tabs then stripTabs line else line
     if l = stop then .closed acc.reverse else scanQuoted fixed tabs stop s rest (l :: acc)
 
 /-- Unquoted-delimiter path: `p.next(); p.getWord()` lexes the body as a word; at EOF the lexer
-    sets tok = _EOF itself, with the word still open (`openNodes` was incremented by wordParts). -/
+    sets tok = _EOF; the literal has been ended (`endLit`) and `wordParts` has closed its own
+    `openNodes` bracket again when `doHeredocs` raises the error: only the caller's brackets count. -/
 def scanUnquoted (tabs : Bool) (stop : Bytes) (s : PState) : List Bytes → List Bytes → Outcome
   | [], _ =>
-    let s' := { s with tok := .eof, openNodes := s.openNodes + 1 }
-    .unclosedErr (s'.tok == .eof && s'.incomplete)
+    let s' := { s with tok := .eof, litLen := 0 }
+    .unclosedErr s'.errIncomplete
   | line :: rest, acc =>
     let l := if tabs then stripTabs line else line
     if l = stop then .closed acc.reverse else scanUnquoted tabs stop s rest (l :: acc)
 
 def scan (fixed quoted tabs : Bool) (stop : Bytes) (s : PState) (lines : List Bytes) : Outcome :=
   if quoted then scanQuoted fixed tabs stop s lines [] else scanUnquoted tabs stop s lines []
+
+/-! ### 3. which newline reads the bodies -/
+
+/-- The tokens of the line that holds the `<<` operator, as far as here-documents care. -/
+inductive Item
+  | hdoc    -- a `<<`/`<<-` redirection: `p.heredocs = append(p.heredocs, r)`
+  | enter   -- preNested: `buriedHdocs = len(heredocs)`
+  | leave   -- postNested: `buriedHdocs` restored
+  | newl    -- a newline token is lexed (Parser.next)
+  | tok     -- any other token
+  deriving DecidableEq, Repr
+
+structure LSt where
+  pending : Nat            -- len(p.heredocs)
+  buried : Nat             -- p.buriedHdocs
+  saved : List Nat         -- the saveState values of the enclosing preNested calls
+  fired : Bool             -- doHeredocs has run for the pending bodies
+  deriving DecidableEq, Repr
+
+def LSt.init : LSt := { pending := 0, buried := 0, saved := [], fired := false }
+
+/-- `Parser.next` at a newline: `if p.quote != hdocWord && len(p.heredocs) > p.buriedHdocs { p.doHeredocs() }` -/
+def LSt.newlineFires (s : LSt) : Bool := s.pending > s.buried
+
+def step (s : LSt) : Item → LSt
+  | .hdoc => { s with pending := s.pending + 1 }
+  | .enter => { s with saved := s.buried :: s.saved, buried := s.pending }
+  | .leave =>
+    match s.saved with
+    | b :: r => { s with buried := b, saved := r }
+    | [] => s
+  | .newl => if s.newlineFires then { s with fired := true, pending := s.buried } else s
+  | .tok => s
+
+def runLine (items : List Item) : LSt := items.foldl step LSt.init
+
+/-- The outcome of parsing `<line>\n<n body lines>` + EOF, none of the lines being the stop word,
+    where the body lines are themselves valid simple commands (what the harness generates):
+    * the line's own newline fired: the bodies are read inside the statement bracket
+      (`openNodes ≥ 1`) and run into EOF — incomplete;
+    * it did not (the newline was lexed while buried): the following lines are parsed as
+      commands; the newline ending the first of them is lexed unburied, inside that command's
+      statement bracket, and reads the bodies — incomplete; with no following line, `Parse` itself
+      calls doHeredocs after `stmts` has returned: no bracket is open, nothing has been read into a
+      literal — NOT incomplete. -/
+def prefixFlag (items : List Item) (quoted : Bool) (stop : Bytes) (bodyLines : List Bytes) : Option Bool :=
+  let s := runLine items
+  if s.fired then
+    match scan true quoted false stop (inBrackets .newl 1 0) bodyLines with
+    | .unclosedErr b => some b
+    | .closed _ => none
+  else if s.pending = 0 then none   -- no here-document on the line
+  else
+    match bodyLines with
+    | [] =>
+      match scan true quoted false stop (inBrackets .eof 0 0) [] with
+      | .unclosedErr b => some b
+      | .closed _ => none
+    | _ :: rest =>
+      match scan true quoted false stop (inBrackets .newl 1 0) rest with
+      | .unclosedErr b => some b
+      | .closed _ => none
+
+/-- "the newline that ends the line is lexed outside every preNested region that was entered
+    after the first `<<`" — the extra hypothesis of the partial theorem. -/
+def lineFires (items : List Item) : Bool := (runLine items).fired
 
 end ShVerif.C10
